@@ -8,7 +8,10 @@ from .. import values as V
 from . import pool
 
 P = (1 << 61) - 1
-RULE = ("(a) directed: for vectors of every dtype and tables containing them, every write path (element, slice, mask, index-list / index-vector "
+from . import recompute
+
+RULE = ("[plus the shared recompute-after-history monitor: this property's operations evaluated on long-lived objects between in-place writes / renames must equal the same operations on fresh objects rebuilt from the current contents] "
+	"(a) directed: for vectors of every dtype and tables containing them, every write path (element, slice, mask, index-list / index-vector "
 	"assignment, promotion by a wider value, None, table cell / row / column / region assignment, attribute assignment, writes through a live column "
 	"view, rename) x 'fingerprint() called before?' x object kind is executed; after each write fingerprint() must equal the fingerprint of an "
 	"object rebuilt from the current plain values (freshness), a single-position write old->new with old != new and hash(old) != hash(new) mod "
@@ -23,10 +26,10 @@ ASSUMPTIONS = [
 ]
 EXHAUSTIVE = {"flag": True, "scope": "write path x cached-before x object kind x dtype matrix (values sampled); histories are sampled"}
 ANCHOR_FUNCS = ["vector:Vector.fingerprint", "vector:Vector._invalidate_fp", "vector:Vector._compute_fingerprint_full", "table:Table.fingerprint", "vector:Vector.__setitem__"]
-REQUIRED_STRATA = {"write-path": 400, "sensitivity": 200, "read-only": 100, "steps": 2000}
+REQUIRED_STRATA = {"recompute": 200, "write-path": 400, "sensitivity": 200, "read-only": 100, "steps": 2000}
 
-PATHS = ["elem", "elem-neg", "slice-seq", "slice-scalar", "mask-list", "mask-vector", "idx-list", "idx-vector", "promote", "none", "rename"]
-TPATHS = ["view-elem", "view-slice", "cell", "cell-by-name", "row", "column", "region-list", "region-table", "attr-list", "attr-vector", "view-promote", "rename_column"]
+PATHS = ["promote-equal", "elem", "elem-neg", "slice-seq", "slice-scalar", "mask-list", "mask-vector", "idx-list", "idx-vector", "promote", "none", "rename"]
+TPATHS = ["view-promote-equal", "view-elem", "view-slice", "cell", "cell-by-name", "row", "column", "region-list", "region-table", "attr-list", "attr-vector", "view-promote", "rename_column"]
 DOM = {
 	"int": [0, 1, 2, 3, 5, 7, -1, -2, 2**61 - 1, 2**61],
 	"float": [0.0, 0.5, 1.5, -2.0, 3.0, -0.0, 1e10],
@@ -35,7 +38,7 @@ DOM = {
 	"date": [V.D0, V.date(2021, 2, 28), V.date(1999, 12, 31)],
 	"nanfloat": [float("nan"), 0.0, -0.0, 1.5, float("inf"), -2.5],
 	"object": [1, "a", 2.5, (1, 2), b"x", V.Plain(3)],
-	"nested": [[1, 2], [1], (3, [4]), {"k": 1}, [1, 2]],
+	"nested": [[1, 2], [1], (3, [4]), {"k": 1}, [1, 2], (3.0, float("nan")), [float("nan")], (1, (2.5, float("nan")))],
 }
 
 
@@ -103,6 +106,17 @@ def run_vector_path(chk, spec):
 		o = call(lambda: v.__setitem__([i], [new])); single = (i, new)
 	elif path == "idx-vector":
 		o = call(lambda: v.__setitem__(Vector([i]), new)); single = (i, new)
+	elif path == "promote-equal":
+		# a wider-kind value that denotes the stored element itself (midnight of the stored day, 3.0 for 3 ...): the column promotes, nothing else changes
+		old = vals[i]
+		if old is None:
+			chk.skip("promote-equal-on-none")
+			return
+		new = V.datetime(old.year, old.month, old.day) if isinstance(old, V.date) and not isinstance(old, V.datetime) else (float(old) if isinstance(old, int) and not isinstance(old, bool) and abs(old) < 2**53 else (complex(old) if isinstance(old, float) else None))
+		if new is None:
+			chk.skip("promote-equal-not-applicable")
+			return
+		o = call(lambda: v.__setitem__(i, new)); single = None
 	elif path == "promote":
 		new = pool.wider(next((x for x in vals if x is not None), 1))
 		o = call(lambda: v.__setitem__(i, new)); single = (i, new)
@@ -156,6 +170,14 @@ def run_table_path(chk, spec):
 		c = col0 if col0 is not None else t["a"]
 		news = [rng.choice(dom) for _ in range(n)]
 		o = call(lambda: c.__setitem__(slice(None), news))
+	elif path == "view-promote-equal":
+		c = col0 if col0 is not None else t.cols()[0]
+		old = cols[0][i]
+		new = V.datetime(old.year, old.month, old.day) if isinstance(old, V.date) else (float(old) if isinstance(old, int) and not isinstance(old, bool) and abs(old) < 2**53 else None)
+		if new is None:
+			chk.skip("promote-equal-not-applicable")
+			return
+		o = call(lambda: c.__setitem__(i, new))
 	elif path == "view-promote":
 		c = col0 if col0 is not None else t.a
 		o = call(lambda: c.__setitem__(i, pool.wider(cols[0][0]))); single = (0, i)
@@ -260,6 +282,7 @@ def run_history(chk, spec):
 
 
 RUNNERS = {"vector_path": run_vector_path, "table_path": run_table_path, "swap": run_swap, "readonly": run_readonly, "history": run_history}
+RUNNERS["recompute"] = recompute.runner("C16")
 
 
 def setup(chk):
@@ -267,6 +290,7 @@ def setup(chk):
 
 
 def run(chk):
+	recompute.add_cases(chk, "C16")
 	rng = chk.rng
 	reps = 2 if chk.quick() else 8
 	idx = 0
